@@ -125,6 +125,14 @@ class LoopCtx(object):
         else:
             self.st.assume(f)
 
+    def forall_k(self, name, closure):
+        """position-quantified invariant fact: forall k. closure(k)"""
+        if self.mode == "check":
+            k = self.st.add_k("k_inv")
+            self.eng.oblige(self.st, "%s/%s" % (self.label, name), closure(k), kind="invariant")
+        else:
+            self.st.assume_all_k(closure)
+
     def num(self, name, term, isint=False):
         self.covered.add(name)
         if self.mode == "check":
